@@ -314,6 +314,30 @@ func runC18(c *fw.Ctx) {
 			}
 		}
 	}
+	// function names that are not built in, at every distance from the ones that are
+	{
+		names := []string{"set_tx_met", "set_tx_metaa", "set_txmeta", "set_meta", "set_acc_meta", "set_acca_meta", "set_account_met", "set_acount_meta",
+			"set_tx_account_meta", "set_x_meta", "metaa", "mta", "balanc", "balances", "overdraf", "overdrafts", "over_draft", "bal_meta", "meta_balance", "x", "set", "_", "send_", "save_all"}
+		for ni, name := range names {
+			id := "unknown-function/" + name
+			if !c.Want(2_400_000+ni, id) {
+				continue
+			}
+			for _, t := range []string{
+				name + "(\"k\", 1)",
+				name + "(@a, \"k\", 1)",
+				"vars { monetary $m = " + name + "(@a, USD) }\nsend $m (source = @a destination = @b)",
+				name + "()\n" + name + "(1)",
+			} {
+				for rep := 0; rep < 12; rep++ {
+					c.Count("unknown_function_texts", 1)
+					if !checkEditorText(c, t, "unknown-function") {
+						return
+					}
+				}
+			}
+		}
+	}
 	// near-miss names: undeclared variables close to several declared ones
 	for i := 0; i < c.N(300, 6000); i++ {
 		id := "names/" + itoa(i)
